@@ -1,0 +1,27 @@
+//go:build verif
+
+/*
+Copyright 2023- IBM Inc. All Rights Reserved.
+
+SPDX-License-Identifier: Apache-2.0
+*/
+
+package eval
+
+// verification-only read accessors (build tag verif) for state that is otherwise invisible at the API boundary
+
+// VerifCacheHits returns the number of CheckIfAllowed answers served from the eval cache so far
+func (pe *PolicyEngine) VerifCacheHits() int {
+	if pe.cache == nil {
+		return 0
+	}
+	return pe.cache.cacheHitsCount
+}
+
+// VerifCacheLen returns the number of verdicts currently held by the eval cache
+func (pe *PolicyEngine) VerifCacheLen() int {
+	if pe.cache == nil || pe.cache.cache == nil {
+		return 0
+	}
+	return pe.cache.cache.Len()
+}
